@@ -15,18 +15,66 @@ import (
 type solverSpec struct {
 	Name string
 	Args func(file string, timeout time.Duration, seed int) []string
+	QF   bool // runs on the quantifier-free weakening of the script
 }
 
 var solvers = []solverSpec{
 	{"z3-new", func(f string, t time.Duration, seed int) []string {
 		return []string{"z3-new", fmt.Sprintf("-T:%d", int(t.Seconds())+1), fmt.Sprintf("smt.random_seed=%d", seed), f}
-	}},
+	}, false},
 	{"z3", func(f string, t time.Duration, seed int) []string {
 		return []string{"z3", fmt.Sprintf("-T:%d", int(t.Seconds())+1), fmt.Sprintf("smt.random_seed=%d", seed), f}
-	}},
+	}, false},
 	{"cvc5", func(f string, t time.Duration, seed int) []string {
 		return []string{"cvc5", fmt.Sprintf("--tlimit=%d", t.Milliseconds()), fmt.Sprintf("--seed=%d", seed), "--produce-models", f}
-	}},
+	}, false},
+	// Bit-vector heavy goals (window arithmetic, offsets): drop every quantified
+	// assumption (a weakening, so unsat is still a proof), ground the ix axioms and
+	// hand the rest to the SAT pipeline.  Only its unsat answers are used.
+	{"z3-new/qf-sat", func(f string, t time.Duration, seed int) []string {
+		return []string{"z3-new", fmt.Sprintf("-T:%d", int(t.Seconds())+1), fmt.Sprintf("sat.random_seed=%d", seed), f}
+	}, true},
+}
+
+// qfVariant weakens a script to its quantifier-free part.
+func qfVariant(src string) string {
+	var keep []string
+	for _, l := range strings.Split(src, "\n") {
+		if strings.Contains(l, "(forall ") || strings.Contains(l, "(exists ") || strings.Contains(l, "(lambda ") {
+			continue
+		}
+		if strings.HasPrefix(l, "(get-value") || strings.HasPrefix(l, "(get-model") {
+			continue
+		}
+		keep = append(keep, l)
+	}
+	txt := strings.Join(keep, "\n")
+	seen := map[string]bool{}
+	var facts []string
+	for i := 0; ; {
+		j := strings.Index(txt[i:], "(ix ")
+		if j < 0 {
+			break
+		}
+		j += i
+		n := parseSx(txt[j:])
+		i = j + 1
+		if n == nil || len(n.kids) != 3 {
+			continue
+		}
+		t := txt[j : j+n.e]
+		if seen[t] {
+			continue
+		}
+		seen[t] = true
+		a, b := txt[j+n.kids[1].s:j+n.kids[1].e], txt[j+n.kids[2].s:j+n.kids[2].e]
+		facts = append(facts, "(assert (= "+t+" (bvadd "+a+" "+b+")))")
+	}
+	k := strings.LastIndex(txt, "(check-sat)")
+	if k < 0 {
+		return ""
+	}
+	return txt[:k] + strings.Join(facts, "\n") + "\n(check-sat-using (then simplify propagate-values solve-eqs elim-uncnstr simplify bit-blast sat))\n"
 }
 
 type solveResult struct {
@@ -41,11 +89,19 @@ type solveResult struct {
 // answer (sat/unsat) wins; in thorough mode every solver is run to completion
 // and disagreement is reported.
 func runSolvers(file string, timeout time.Duration, seed int, all bool) solveResult {
+	qfFile := ""
+	if src, err := os.ReadFile(file); err == nil && strings.Contains(string(src), "(_ BitVec") {
+		if q := qfVariant(string(src)); q != "" {
+			qfFile = file + ".qf"
+			os.WriteFile(qfFile, []byte(q), 0o644)
+			defer os.Remove(qfFile)
+		}
+	}
 	ctx, cancel := context.WithTimeout(context.Background(), timeout+2*time.Second)
 	defer cancel()
 	type ans struct {
 		name, verdict, out string
-		t             float64
+		t                  float64
 	}
 	ch := make(chan ans, len(solvers))
 	for si, s := range solvers {
@@ -66,7 +122,15 @@ func runSolvers(file string, timeout time.Duration, seed int, all bool) solveRes
 				}
 			}
 			t0 := time.Now()
-			a := s.Args(file, timeout, seed)
+			f := file
+			if s.QF {
+				if qfFile == "" {
+					ch <- ans{s.Name, "unknown", "no qf variant", 0}
+					return
+				}
+				f = qfFile
+			}
+			a := s.Args(f, timeout, seed)
 			cmd := exec.CommandContext(ctx, a[0], a[1:]...)
 			var out bytes.Buffer
 			cmd.Stdout = &out
@@ -78,6 +142,9 @@ func runSolvers(file string, timeout time.Duration, seed int, all bool) solveRes
 			switch first {
 			case "unsat", "sat":
 				v = first
+			}
+			if s.QF && v == "sat" {
+				v = "unknown" // fewer assumptions: a model means nothing
 			}
 			ch <- ans{s.Name, v, o, time.Since(t0).Seconds()}
 		}()
